@@ -441,7 +441,7 @@ def step (line : String) : String :=
           | Json.arr #[Json.str "other", Json.str n, Json.str t] => some (.other (some n.toList) t.toList)
           | _ => none
         | _ => []
-      (Json.mkObj [("ok", Json.arr ((Gen.hoist stmts).map fun g => match g with
+      (Json.mkObj [("ok", Json.arr ((Gen.hoistSorted stmts).map fun g => match g with
           | .imp f t => Json.arr #[Json.str "imp", Json.bool f, Json.str (String.ofList t)]
           | .other none t => Json.arr #[Json.str "other", Json.null, Json.str (String.ofList t)]
           | .other (some n) t => Json.arr #[Json.str "other", Json.str (String.ofList n), Json.str (String.ofList t)]).toArray)]).compress
